@@ -572,3 +572,70 @@ def run(check):
                    'parseRetentionDef, Archive.__init__ and Archive.getTuple')
   else:
     r_un.cannot_decide('retention tuple layout not recognised')
+  from .c16 import rule_parser_verbatim
+  rule_parser_verbatim(check, cx, check.rule('R-C19-parser-verbatim', 1, 'storage-schemas / storage-aggregation option values are taken as written (default ConfigParser syntax)'))
+  rule_independent_timers(check, cx, check.rule('R-C19-independent-timers', 1, 'a failure of one reload (SystemExit from a bad retention) cannot stop the reload of the other file'))
+
+
+def rule_independent_timers(check, cx, rule):
+  """each schema list has a reload tick of its own: a LoopingCall whose function reloads storage-schemas.conf AND
+  storage-aggregation.conf ties them together - loadStorageSchemas() answers an unparsable retention with `raise SystemExit(1)`,
+  which `except Exception` does not catch; it escapes the shared function, Twisted stops that LoopingCall for good, and
+  storage-aggregation.conf is never read again.  (A shared function is accepted when every reload step but the last sits in a
+  try whose handler catches BaseException.)"""
+  wmod = check.repo.module('carbon.writer')
+  lcs = []
+  for ss_ in wmod.all_functions():
+    if isinstance(ss_.node, ast.Lambda):
+      continue
+    lcs += [(ss_, c) for c in walk_no_nested(ss_.node, include_self=False) if isinstance(c, ast.Call) and
+            (dotted(c.func) or '').split('.')[-1] == 'LoopingCall' and c.args]
+  GL = ('SCHEMAS', 'AGGREGATION_SCHEMAS')
+  seen = 0
+  for ss, c in lcs:
+    target = None
+    for t in check.types.expr_types(c.args[0], ss.module, ss):
+      if t[0] == 'func':
+        target = t[1]
+    if target is None:
+      continue
+    f = cx.inl(target)
+    steps = []
+    for st in ast.walk(f.node):
+      if isinstance(st, ast.Assign):
+        for t in st.targets:
+          d = dotted(t)
+          if d in GL or (isinstance(t, ast.Subscript) and isinstance(t.slice, ast.Constant) and t.slice.value in GL and 'globals' in unparse(t.value)):
+            steps.append((st, d or t.slice.value))
+    # helpers that were not spliced (anchors are never inlined): follow one level of calls to the reload functions
+    for call in walk_no_nested(f.node, include_self=False):
+      if isinstance(call, ast.Call) and isinstance(call.func, ast.Name) and call.func.id in ('reloadStorageSchemas', 'reloadAggregationSchemas'):
+        steps.append((call, 'SCHEMAS' if 'Storage' in call.func.id else 'AGGREGATION_SCHEMAS'))
+    kinds = {k for _, k in steps}
+    if not kinds:
+      continue
+    seen += 1
+    if len(kinds) == 1:
+      rule.ok('%s reloads %s only' % (target.qualname, kinds.pop()), ss.loc(c))
+      continue
+    steps.sort(key=lambda s: (s[0].lineno, s[0].col_offset))
+    unsafe = None
+    for st, k in steps[:-1]:
+      node, safe = st, False
+      while node is not f.node and node is not None:
+        par = getattr(node, '_parent', None)
+        if isinstance(par, ast.Try) and any(node is s for s in par.body):
+          for h in par.handlers:
+            if h.type is None or unparse(h.type) == 'BaseException':
+              safe = True
+        node = par
+      if not safe:
+        unsafe = (st, k)
+        break
+    if unsafe:
+      rule.violate('one timer for both files', ss, c, 'LoopingCall(%s) reloads both schema lists; the reload of %s (line %d) is not '
+                   'shielded against BaseException, and loadStorageSchemas() can `raise SystemExit(1)` (bad retention): that escapes, '
+                   'stops the shared LoopingCall, and the other file is never re-read until restart' % (target.qualname, unsafe[1], unsafe[0].lineno))
+    else:
+      rule.ok('%s reloads both lists, each step shielded' % target.qualname, ss.loc(c))
+  rule.require(seen >= 1, 'no LoopingCall that reloads a schema list found in carbon.writer')
